@@ -44,9 +44,9 @@ class Gen:
             shared = False
             for j in range(ar):
                 r = rng.random()
-                if r < 0.08:
+                if r < 0.11:
                     args.append(C(rng.choice(CONSTS)))
-                elif r < 0.16 and allow_wild:
+                elif r < 0.19 and allow_wild:
                     args.append(("wild",))
                 elif bound and (rng.random() < 0.45 or (i > 0 and not shared and j == ar - 1 and rng.random() < connect)):
                     args.append(V(rng.choice(bound)))
@@ -220,7 +220,9 @@ class Gen:
         else:
             rules.append({"head": ("r", [V("X"), V("Z")]),
                           "body": [("pos", e, [V("X"), V("Y")]), ("pos", "r", [V("Y"), V("Z")]), ("neg", "c", [V("Z")])]})
-        qk = rng.choice(["all", "bound1", "bound2", "filter", "neg", "count", "join"])
+        qk = rng.choice(["all", "bound1", "bound2", "filter", "neg", "count", "join", "both", "boundjoin",
+                         "mq1", "mq2", "mq1", "mq2", "mqjoin"])
+        qhead = "q"
         k = rng.choice([0, 1, 2])
         if qk == "all":
             rules.append({"head": ("q", [V("X"), V("Y")]), "body": [("pos", "r", [V("X"), V("Y")])]})
@@ -235,10 +237,30 @@ class Gen:
             rules.append({"head": ("q", [V("X")]), "body": [("pos", "c", [V("X")]), ("neg", "r", [C(k), V("X")])]})
         elif qk == "count":
             rules.append({"head": ("q", [V("X"), ("agg", "count", "Y")]), "body": [("pos", "r", [V("X"), V("Y")])]})
+        elif qk in ("mq1", "mq2", "mqjoin"):
+            # the handler's `?r(1, Y)` shorthand: head __query__, constants bound through `_cN = k` equalities;
+            # this is the only shape for which apply_magic_sets fires
+            qhead = "__query__"
+            if qk == "mq1":
+                rules.append({"head": (qhead, [V("_c0"), V("Y")]),
+                              "body": [("pos", "r", [V("_c0"), V("Y")]), ("cmp", V("_c0"), "=", C(k))]})
+            elif qk == "mq2":
+                rules.append({"head": (qhead, [V("X"), V("_c1")]),
+                              "body": [("pos", "r", [V("X"), V("_c1")]), ("cmp", V("_c1"), "=", C(k))]})
+            else:
+                pos_first = rng.random() < 0.5
+                rules.append({"head": (qhead, [V("_c0"), V("Y"), V("Z")]),
+                              "body": [("pos", "r", [V("_c0"), V("Y")] if pos_first else [V("Y"), V("_c0")]),
+                                       ("pos", "a", [V("Y"), V("Z")]), ("cmp", V("_c0"), "=", C(k))]})
+        elif qk == "both":
+            rules.append({"head": ("q", [V("X")]), "body": [("pos", "c", [V("X")]), ("pos", "r", [C(k), C(rng.choice([0, 1, 2]))])]})
+        elif qk == "boundjoin":
+            rules.append({"head": ("q", [V("Y"), V("Z")]),
+                          "body": [("pos", "r", [C(k), V("Y")]), ("pos", "a", [V("Y"), V("Z")])]})
         else:
             rules.append({"head": ("q", [V("X"), V("Z")]),
                           "body": [("pos", "r", [V("X"), V("Y")]), ("pos", "d", [V("Y"), V("Z"), ("wild",)])]})
-        return {"rules": rules, "query": "q"}
+        return {"rules": rules, "query": qhead}
 
     def prog_mutual(self, feats):
         rng = self.rng
@@ -251,6 +273,54 @@ class Gen:
         if rng.random() < 0.5:
             rng.shuffle(rules)
         rules.append({"head": ("q", [V("X")]), "body": [("pos", rng.choice(["od", "ev"]), [V("X")])]})
+        return {"rules": rules, "query": "q"}
+
+    def prog_shared(self, feats):
+        """Two or three rules that contain the same two-atom join (subplan sharing / SIP / join planning targets)."""
+        rng = self.rng
+        (r1, a1), (r2, a2) = rng.sample(EDB, 2)
+        vs1 = VARS[:a1]
+        vs2 = [vs1[-1]] + VARS[a1:a1 + a2 - 1]
+        if rng.random() < 0.4 and a2 > 1:
+            vs2 = vs2[1:] + vs2[:1]
+        core = [("pos", r1, [V(v) for v in vs1]), ("pos", r2, [V(v) for v in vs2])]
+        allv = list(dict.fromkeys(vs1 + vs2))
+        rules = []
+
+        def mk(head, extra_p=0.7, near=False):
+            body = [(l[0], l[1], list(l[2])) for l in core]
+            if near:
+                # same relations, but joined on a different column: a near-miss for plan sharing
+                i = rng.randrange(2)
+                args = body[i][2]
+                if len(args) > 1:
+                    j = rng.randrange(1, len(args))
+                    body[i] = (body[i][0], body[i][1], args[j:] + args[:j])
+            if rng.random() < 0.5:
+                body.reverse()
+            if rng.random() < extra_p:
+                body.append(self.cmp_lit(allv))
+            if rng.random() < 0.3:
+                body.append(self.neg_lit(list(EDB), allv))
+            if rng.random() < 0.3:
+                rel, ar = rng.choice(EDB)
+                body.append(("pos", rel, [V(rng.choice(allv))] + [("wild",)] * (ar - 1)))
+            n = rng.choice([1, 2, 2])
+            return {"head": (head, [V(rng.choice(allv)) for _ in range(n)]), "body": body}
+        v = mk("v0")
+        rules.append(v)
+        if rng.random() < 0.5:
+            rules.append(mk("v1"))
+        q = mk("q", near=rng.random() < 0.5)
+        if rng.random() < 0.6:
+            # the query also uses the view
+            hv = [t[1] for t in v["head"][1]]
+            q["body"].append(("pos", "v0", [V(rng.choice(allv)) for _ in hv]))
+        rules.append(q)
+        if rng.random() < 0.3:
+            q2 = mk("q")
+            q2["head"] = ("q", [V(rng.choice(allv)) for _ in q["head"][1]])
+            rules.append(q2)
         return {"rules": rules, "query": "q"}
 
     def program(self, kind=None, feats=("neg", "arith")):
@@ -273,6 +343,9 @@ def templates():
         ([("pos", "a", [V("X"), V("K")]), ("pos", "b", [V("K"), V("V")]), ("pos", "c", [V("V")])], ["X", "K", "V"]),
         ([("pos", "a", [V("X"), V("Y")]), ("pos", "b", [V("X"), V("Y")])], ["X", "Y"]),
         ([("pos", "a", [V("X"), V("Y")]), ("pos", "c", [V("Z")])], ["X", "Y", "Z"]),
+        # multi-column join keys with a further right column behind them
+        ([("pos", "a", [V("X"), V("K")]), ("pos", "d", [V("X"), V("K"), V("V")])], ["X", "K", "V"]),
+        ([("pos", "a", [V("X"), V("K")]), ("pos", "d", [V("K"), V("V"), V("X")])], ["X", "K", "V"]),
     ]
     for body, vs in shapes:
         for v in vs:
@@ -282,4 +355,107 @@ def templates():
         for x, y in itertools.combinations(vs, 2):
             head = [V(vs[0]), V(vs[-1])]
             out.append({"rules": [{"head": ("q", head), "body": body + [("cmp", V(x), "<", V(y))]}], "query": "q"})
+    # atoms carrying two constants / a constant and a repeated variable, joined with another atom
+    multi = [
+        [("pos", "d", [V("X"), C(1), C(2)]), ("pos", "b", [V("X"), V("Y")])],
+        [("pos", "d", [V("X"), V("X"), C(2)]), ("pos", "b", [V("X"), V("Y")])],
+        [("pos", "b", [V("X"), V("Y")]), ("pos", "d", [C(2), V("Y"), C(2)])],
+        [("pos", "d", [C(1), V("X"), V("X")]), ("pos", "c", [V("X")]), ("pos", "a", [V("X"), V("Y")])],
+        [("pos", "a", [V("X"), V("Y")]), ("pos", "d", [V("Y"), C(0), V("Y")]), ("neg", "c", [V("X")])],
+    ]
+    for body in multi:
+        out.append({"rules": [{"head": ("q", [V("X"), V("Y")]), "body": body}], "query": "q"})
+        out.append({"rules": [{"head": ("q", [V("X"), V("Y")]), "body": body + [("cmp", V("X"), "<", V("Y"))]}], "query": "q"})
     return out
+
+
+# -------------------------------------------------------------------------------------------
+# synthetic plan trees (IR JSON) for the name-agnostic rewrite passes (optimizer rules)
+# -------------------------------------------------------------------------------------------
+
+SCANS = [("a", 2), ("b", 2), ("c", 1), ("d", 3)]
+
+
+class PlanGen:
+    def __init__(self, seed):
+        self.rng = random.Random(seed)
+        self.n = 0
+
+    def scan(self):
+        rel, ar = self.rng.choice(SCANS)
+        self.n += 1
+        return {"op": "Scan", "rel": rel, "schema": [f"s{self.n}_{i}" for i in range(ar)], "w": ar}, ar
+
+    def pred(self, w):
+        rng = self.rng
+        r = rng.random()
+        col = rng.randrange(w)
+        op = rng.choice(["Eq", "Ne", "Gt", "Lt", "Ge", "Le"])
+        if r < 0.4 or w < 2:
+            return {"p": "ColConst", "op": op, "col": col, "val": rng.choice([0, 1, 2, 3])}
+        if r < 0.7:
+            return {"p": "Cols", "op": op, "l": col, "r": rng.randrange(w)}
+        if r < 0.8:
+            return {"p": "And", "l": self.pred(w), "r": self.pred(w)}
+        if r < 0.88:
+            return {"p": "Or", "l": self.pred(w), "r": self.pred(w)}
+        if r < 0.94:
+            return {"p": rng.choice(["True", "False"])}
+        c2 = rng.randrange(w)
+        return {"p": "ColArith", "col": col, "op": op,
+                "expr": {"a": "Bin", "op": rng.choice(["Add", "Sub", "Mul"]), "l": {"a": "Var", "name": "V"},
+                         "r": {"a": "Const", "val": rng.choice([1, 2])}}, "vars": {"V": c2}}
+
+    def tree(self, depth):
+        rng = self.rng
+        if depth <= 0 or rng.random() < 0.15:
+            return self.scan()
+        k = rng.choice(["Map", "Map", "Filter", "Filter", "Filter", "Join", "Join", "Distinct", "Union", "Antijoin",
+                        "Compute", "Aggregate"])
+        if k == "Map":
+            t, w = self.tree(depth - 1)
+            n = rng.choice([1, 2, 2, 3, w])
+            proj = [rng.randrange(w) for _ in range(max(1, n))]
+            if rng.random() < 0.2:
+                proj = list(range(w))
+            return {"op": "Map", "input": t, "proj": proj, "w": len(proj)}, len(proj)
+        if k == "Filter":
+            t, w = self.tree(depth - 1)
+            return {"op": "Filter", "input": t, "pred": self.pred(w), "w": w}, w
+        if k in ("Join", "Antijoin"):
+            l, lw = self.tree(depth - 1)
+            r, rw = self.tree(depth - 1)
+            nk = rng.choice([0, 1, 1, 1, 2]) if k == "Join" else rng.choice([1, 1, 2])
+            nk = min(nk, lw, rw)
+            lk = [rng.randrange(lw) for _ in range(nk)]
+            rk = rng.sample(range(rw), nk) if rng.random() < 0.85 else [rng.randrange(rw) for _ in range(nk)]
+            if k == "Antijoin":
+                return {"op": "Antijoin", "left": l, "right": r, "lk": lk, "rk": rk, "w": lw}, lw
+            w = lw + rw if nk == 0 else lw + rw - len(set(rk))
+            return {"op": "Join", "left": l, "right": r, "lk": lk, "rk": rk, "w": w}, w
+        if k == "Distinct":
+            t, w = self.tree(depth - 1)
+            return {"op": "Distinct", "input": t, "w": w}, w
+        if k == "Union":
+            t, w = self.tree(depth - 1)
+            others = []
+            for _ in range(rng.choice([1, 1, 2])):
+                for _try in range(6):
+                    o, ow = self.tree(depth - 1)
+                    if ow >= w:
+                        if ow > w:
+                            o = {"op": "Map", "input": o, "proj": list(range(w)), "w": w}
+                        others.append(o)
+                        break
+            if rng.random() < 0.15:
+                others.append({"op": "Filter", "input": t, "pred": {"p": "False"}, "w": w})
+            return {"op": "Union", "inputs": [t] + others, "w": w}, w
+        if k == "Compute":
+            t, w = self.tree(depth - 1)
+            e = {"e": "Arith", "op": rng.choice(["Add", "Sub", "Mul"]), "l": {"e": "Col", "idx": rng.randrange(w)},
+                 "r": rng.choice([{"e": "Int", "val": rng.choice([1, 2, 3])}, {"e": "Col", "idx": rng.randrange(w)}])}
+            return {"op": "Compute", "input": t, "exprs": [["x", e]], "w": w + 1}, w + 1
+        t, w = self.tree(depth - 1)
+        g = sorted(rng.sample(range(w), rng.choice([0, 1, 1]) if w > 1 else 0))
+        f = rng.choice(["Count", "Sum", "Min", "Max", "CountDistinct"])
+        return {"op": "Aggregate", "input": t, "group_by": g, "aggs": [[f, rng.randrange(w)]], "w": len(g) + 1}, len(g) + 1
